@@ -27,6 +27,8 @@ def compact(e):
         return {"event": "Decode", "src": e["src"], "in": e["in"][:40], "in_len": len(e["in"]),
                 "accepted_by": [r["t"] for r in e["res"] if r["ok"]], "split_ok": e["split"]["ok"],
                 "streams": {w["n"]: [w["ok"], w["read"]] for w in e["streams"]}, "alloc": e["alloc"]}
+    if e["event"] == "EncodeFail":
+        return {"event": "EncodeFail", "src": e["src"], "t": e["t"], "val": json.dumps(e["val"])[:200], "ok": e["ok"]}
     return {"event": "Encode", "src": e["src"], "t": e["t"], "val": json.dumps(e["val"])[:200], "enc": e["enc"][:40],
             "back_ok": e["back"]["ok"]}
 
@@ -42,7 +44,9 @@ def run(ctx):
         raise Inconclusive("TLC generated only %d cases" % len(cases))
     nshape = sum(1 for c in cases if c["op"] == "shape")
     nval = sum(1 for c in cases if c["op"] == "enc")
-    log("TLC cases: %d byte strings, %d shapes, %d typed values" % (len(cases) - nshape - nval, nshape, nval))
+    nseq = sum(1 for c in cases if c["op"] == "encseq")
+    log("TLC cases: %d byte strings, %d shapes, %d typed values, %d encode sequences"
+        % (len(cases) - nshape - nval - nseq, nshape, nval, nseq))
     # 2. the real code on every case and on seeded random values / mutated encodings
     drv = ctx.build("c08")
     shards = 16 if quick else 48
@@ -77,6 +81,7 @@ def run(ctx):
         finish(ctx, "exploration", {"evaluations": 1, "distinct_nontrivial": 2, "rule": "every driver died", "samples": [0]}, [])
     ndec = sum(int(o.split("decode_events=")[1].split()[0]) for o in outs)
     nenc = sum(int(o.split("encode_events=")[1].split()[0]) for o in outs)
+    nfail = sum(int(o.split("fail_events=")[1].split()[0]) for o in outs)
     ntypes = int(outs[0].split("types=")[1].split()[0])
     # 3. every event judged against the reference recomputed in TLA+
     events, tags = judge_traces(ctx, "RlpTrace", traces, timeout=1500)
@@ -94,7 +99,7 @@ def run(ctx):
     # 4. vacuity: every decoder accepted and rejected something, every type was encoded,
     #    the stream paths were exercised in both directions
     acc, rej, enc_ok, srcs = {}, {}, {}, {}
-    walk_ok = walk_err = split_ok = huge = 0
+    walk_ok = walk_err = split_ok = huge = failed_encodes = after_fail = 0
     distinct = set()
     real_calls = 0
     samples, seen_src = [], set()
@@ -103,6 +108,10 @@ def run(ctx):
         if (e["event"], e["src"]) not in seen_src and len(samples) < 8:
             seen_src.add((e["event"], e["src"]))
             samples.append(compact(e))
+        if e["event"] == "EncodeFail":
+            real_calls += 1
+            failed_encodes += not e["ok"]
+            continue
         if e["event"] == "Decode":
             real_calls += len(e["res"]) + 2 + len(e["streams"])
             anyok = e["split"]["ok"]
@@ -122,6 +131,7 @@ def run(ctx):
                 distinct.add(("d", bytes(e["in"])))
         else:
             real_calls += 2
+            after_fail += e["src"].endswith("-seq")
             enc_ok[e["t"]] = enc_ok.get(e["t"], 0) + e["ok"]
             distinct.add(("e", e["t"], json.dumps(e["val"], sort_keys=True)))
     require(len(acc) == ntypes + 5 and len(rej) == ntypes + 5, "some decoder never accepted or never rejected: acc=%d rej=%d of %d"
@@ -129,7 +139,9 @@ def run(ctx):
     require(len(enc_ok) == ntypes and all(v > 0 for v in enc_ok.values()), "some type was never encoded", ctx=ctx)
     require(walk_ok > 100 and walk_err > 100 and split_ok > 100, "stream/split paths not exercised", ctx=ctx)
     require(huge > 10, "no input declaring a size of 4+ bytes", ctx=ctx)
-    require(events == ndec + nenc, "events judged (%d) != events recorded (%d)" % (events, ndec + nenc), ctx=ctx)
+    require(failed_encodes > 50 and after_fail > 50, "encode sequences (failed encode, then ordinary encode) hardly occurred: %d, %d"
+            % (failed_encodes, after_fail), ctx=ctx)
+    require(events == ndec + nenc + nfail, "events judged (%d) != events recorded (%d)" % (events, ndec + nenc + nfail), ctx=ctx)
     coverage = {
         "evaluations": real_calls,
         "distinct_nontrivial": len(distinct),
@@ -149,7 +161,9 @@ def run(ctx):
         "decode_events": ndec,
         "encode_events": nenc,
         "events_by_source": srcs,
-        "tlc_cases": {"byte_strings": len(cases) - nshape - nval, "shapes": nshape, "typed_values": nval},
+        "tlc_cases": {"byte_strings": len(cases) - nshape - nval - nseq, "shapes": nshape, "typed_values": nval, "encode_sequences": nseq},
+        "failed_encodes": failed_encodes,
+        "encodes_directly_after_a_failed_encode": after_fail,
         "accepted_per_type": acc,
         "failed_judgements": tags,
         "action_coverage": gen["coverage"],
